@@ -19,7 +19,9 @@ query interval, every one to be returned exactly once, also by a generator consu
 in create_db() / update(), add_relation() with a parent_func / child_func that moves a feature) into another genomic bin of
 every level, then every query form, judged on the coordinates now stored in the file (plain sqlite3); and databases imported
 from files that carry DIRECTIVES ('##sequence-region <seqid> <start> <end>' for the queried and for other seqids, features
-reaching beyond the declared end, query ends beyond it): directives never change what a query returns.
+reaching beyond the declared end, query ends beyond it): directives never change what a query returns;
+and 'huge' cases: query bounds FAR beyond anything stored (2**62, 2**63 - 1, 2**63, 2**64, 10**20, 2**100) as the end of
+two-sided overlap / completely_within queries, as the only bound and in limit=, as ints and as digits of the string forms.
 """
 import os
 import random
@@ -95,7 +97,15 @@ RULE = ("feature sets of 300 (quick: 250) features on 2-4 seqids x 3 strands x 5
         "string of the four apis (string against tuple and both against the scan of the stored rows), 20% as the bare 'seqid' "
         "string; the featuretype restriction of these and of 30% of the list / tuple restrictions of the ordinary queries "
         "names a type more than once (['exon', 'CDS', 'exon']; 35%: built at run time from the featuretypes of a gene's "
-        "children); seqids holding ':' are stored too and queried through the tuple / keyword / Feature forms")
+        "children); seqids holding ':' are stored too and queried through the tuple / keyword / Feature forms.  'huge' cases: a "
+        "database of 20-60 features on 2-3 seqids (genes with exon / CDS children at small coordinates, around 2^17 and 2^29, at "
+        "2^30..2^45, and genes / children / loose features reaching 2^62 +-2 and 2^63 - 1, the largest storable coordinate) and 8-11 "
+        "queries each with a bound from {2^62, 2^63 - 1, 2^63, 2^64, 10^20} (every value in every case) or a neighbour / 10^30 / "
+        "99999999999999999999 / 2^100: 62% as the END of a two-sided query (start 1 / a feature's start or end +-1 / random small / "
+        "2^29 / 2^62 / 2^63 - 1 / the end itself), 10% both bounds huge, 14% end only, 14% start only; overlap and completely_within, "
+        "strand / featuretype restrictions, seqid omitted in 15%; every two-sided query is asked as region tuple / 'seqid:start-end' "
+        "string (the digits) / keywords / Feature form and as limit= tuple and string of all_features / features_of_type / children / "
+        "parents of a gene that reaches far out; each answer against the scan with exact Python int comparison")
 REQUIRED = ["queries executed", "result rows compared", "sql: bin clause present", "sql: bin clause absent",
             "sql: region bin clause with 9..899 bins", "sql: limit bin clause with 9..899 bins", "sql: region within, both bounds in range, no bin clause (>= 900 bins)",
             "sql: limit, no bin clause (>= 900 bins)", "queries with an end >= 2**29", "one-sided queries",
@@ -180,14 +190,38 @@ REQUIRED += ["odd seqids: databases built",
             ["repeated featuretypes: non-empty answers, each feature once: %s" % a
              for a in ("region", "region within", "region overlap", "all_features(limit=)", "features_of_type(limit=)",
                        "children(limit=)", "parents(limit=)")]
+REQUIRED += ["huge: databases built", "huge: stored features with an end >= 2**62",
+             "huge: region answers judged, both bounds >= 2**62",
+             "huge: non-empty region answers judged, end >= 2**63: overlap",
+             "huge: region answers holding a feature that ends at or beyond 2**62, end >= 2**63",
+             "huge: non-empty limit= answers judged, end >= 2**63: overlap", "huge: non-empty limit= answers judged, end >= 2**63: within",
+             "huge: non-empty one-sided answers judged, bound 2**62 .. 2**63-1",
+             "huge: one-sided answers judged, bound 2**62 .. 2**63-1: start-only",
+             "huge: one-sided answers judged, bound 2**62 .. 2**63-1: end-only"] + \
+            ["huge: region answers judged, end %s: form %s" % (b, f) for b in ("2**62 .. 2**63-1", ">= 2**63")
+             for f in ("tuple", "string", "kw", "feature", "kw-noseqid")] + \
+            ["huge: non-empty %s answers judged, end 2**62 .. 2**63-1: %s" % (k, w) for k in ("region", "limit=")
+             for w in ("overlap", "within")] + \
+            ["huge: limit= answers judged, end 2**62 .. 2**63-1: %s form" % f for f in ("tuple", "string")] + \
+            ["huge: limit= answers judged, end >= 2**63: %s" % a for a in ("string form", "all_features", "features_of_type",
+                                                                          "children", "parents")]
 REQUIRED_CLASSES = ["region/%s/%s" % (f, w) for f, _ in G.REGION_FORMS for w in ("overlap", "within")] + \
                    ["%s/%s/%s" % (a, f, w) for a in ("all_features", "features_of_type", "children", "parents")
                     for f, _ in G.LIMIT_FORMS for w in ("overlap", "within")] + \
                    ["interleave/nested", "interleave/schedule", "handles/second handle updates the file", "big/one large answer",
                     "rewritten/rows rewritten with other coordinates",
                     "directives/queries on a database imported from a file with ##sequence-region lines",
-                    "oddseq/seqids holding , - space % and repeated featuretype entries"]
+                    "oddseq/seqids holding , - space % and repeated featuretype entries",
+                    "huge/query bounds of 2**62 and more"]
 ASSUMPTIONS = [
+    "query bounds of 2**63 and more (beyond sqlite's INTEGER range; every bound up to 2**63 - 1 is judged in every form): the "
+    "unchanged tree answers exactly through region() two-sided overlap queries (tuple / string / keyword / Feature form, seqid "
+    "omitted) and through limit= given as a 'seqid:start-end' STRING (all_features, features_of_type, children, parents; overlap "
+    "and completely_within) - there an exception is a violation; it raises OverflowError ('Python int too large to convert to "
+    "SQLite INTEGER') from region(..., completely_within=True) in every form, from region() with one bound only, and from limit= "
+    "given as a (seqid, start, end) TUPLE of the four apis, e.g. region(('chr1', 1, 2**63), completely_within=True), "
+    "region(seqid='chr1', end=2**63), all_features(limit=('chr1', 1, 2**63)): in those forms an OverflowError is accepted and "
+    "counted, every answer they do return is judged against the scan",
     "one bound only: a result R is accepted when {strictly beyond the bound} <= R <= {at or beyond the bound}; for "
     "completely_within the deciding coordinate is the feature's start (only start given) / end (only end given), "
     "otherwise the feature's end / start",
@@ -400,6 +434,8 @@ def execute(ctx, case):
         return execute_rewritten(ctx, case)
     if case["kind"] == "oddseq":
         return execute_oddseq(ctx, case)
+    if case["kind"] == "huge":
+        return execute_huge(ctx, case)
     q = case["query"]
     db, SET, stored_bin = get_db(ctx, case["set"])
     feats = SET["features"]
@@ -1054,6 +1090,157 @@ def execute_oddseq(ctx, case):
 
 
 # ---------------------------------------------------------------------------------------------------------
+HUGE_REFUSED = ("huge: calls with a bound >= 2**63 that raised OverflowError, accepted (the unchanged tree raises it there): %s")
+
+
+def huge_band(x):
+    return ">= 2**63" if x >= 2 ** 63 else "2**62 .. 2**63-1"
+
+
+def execute_huge(ctx, case):
+    """kind "huge": {"seed", "queries"} (G.gen_huge).  A small database (features at small coordinates, around 2**17 and
+    2**29, and far out up to 2**63 - 1, the largest storable coordinate); every query has a bound of 2**62 or more (2**62,
+    2**63 - 1, 2**63, 2**64, 10**20, neighbours, 10**30, 2**100) - as the end of a two-sided query (start small / on a
+    feature / huge as well), or as the only bound - and is asked in every form: region tuple / 'seqid:start-end' string /
+    keywords / Feature / seqid omitted, and limit= tuple / string of all_features / features_of_type / children / parents.
+    Python compares the ints exactly, so the answer is the scan's.  With a bound >= 2**63 the forms listed in ASSUMPTIONS may
+    raise OverflowError (counted); whatever they RETURN is judged."""
+    import gffutils
+    from gvmon.run import Inconclusive
+
+    model = G.make_huge(case["seed"])
+    try:
+        db = gffutils.create_db(G.text_of(model), ":memory:", from_string=True)
+        rows = db.conn.execute("SELECT id, seqid, featuretype, start, end, strand FROM features").fetchall()
+        rel = sorted((r[0], r[1]) for r in db.conn.execute("SELECT parent, child FROM relations WHERE level = 1"))
+    except Exception as ex:
+        raise Inconclusive("huge: building the database failed: %r" % (ex,))
+    if {r[0]: tuple(r)[1:] for r in rows} != {f["id"]: (f["seqid"], f["featuretype"], f["start"], f["end"], f["strand"])
+                                               for f in model} or \
+            rel != sorted((p, f["id"]) for f in model for p in f["parents"]):
+        db.conn.close()
+        raise Inconclusive("huge: the imported feature set differs from the model (see C01 / C02)")
+    feats = model
+    by_id = {f["id"]: f for f in feats}
+    ctx.mon("huge: databases built")
+    ctx.mon("features imported", len(rows))
+    ctx.mon("huge: stored features with an end >= 2**62", sum(1 for f in feats if f["end"] >= 2 ** 62))
+    sqltrace.reset()
+    contracts.drain()
+    useful = False
+
+    def ask(what, fn, lower, upper, q, may_refuse):
+        """One real call; returns the ids, "refused" (accepted OverflowError) or None (reported)."""
+        ctx.mon("queries executed")
+        try:
+            got = [f.id for f in fn()]
+        except Exception as ex:
+            if may_refuse and isinstance(ex, OverflowError):
+                ctx.mon(HUGE_REFUSED % may_refuse)
+                return "refused"
+            report(ctx, case, "huge raised:" + what, {
+                "why": "query bound far beyond every stored coordinate: %s raised %s (expected: the %d features that satisfy the "
+                       "comparison)" % (what, repr(ex)[:200], len(lower)), "query": q, "expected": lower[:12]})
+            return None
+        ctx.mon("result rows compared", len(got))
+        bad = M.judge(got, lower, upper)
+        if bad:
+            d = {"why": "query bound far beyond every stored coordinate: %s differs from the full scan" % what, "query": q,
+                 "n_got": len(got), "n_expected": len(lower)}
+            for k, ids in bad.items():
+                d[k] = [[i, by_id[i]["seqid"], by_id[i]["start"], by_id[i]["end"], by_id[i]["featuretype"]] for i in ids[:6]
+                        if i in by_id]
+                d["n " + k] = len(ids)
+            report(ctx, case, "huge:" + what, d)
+            return None
+        return got
+
+    try:
+        for q in case["queries"]:
+            seqid, a, b, within, strand, ft = q["seqid"], q["start"], q["end"], q["within"], q["strand"], q["ft"]
+            top = max(x for x in (a, b) if x is not None)
+            band = huge_band(top)
+            over = top >= 2 ** 63
+            wo = "within" if within else "overlap"
+            kw = dict(strand=strand, featuretype=list(ft) if ft is not None else None, completely_within=within)
+            lower, upper = M.expected(feats, seqid, a, b, within, strand, ft)
+            if a is None or b is None:
+                # ---- one bound
+                pos = {k: v for k, v in (("seqid", seqid), ("start", a), ("end", b)) if v is not None}
+                side = "start" if b is None else "end"
+                got = ask("region/%s-only" % side, lambda: db.region(**pos, **kw), lower, upper, q,
+                          "region, one bound" if over else None)
+                if isinstance(got, list):
+                    ctx.mon("huge: one-sided answers judged, bound %s: %s-only" % (band, side))
+                    if lower:
+                        useful = True
+                        ctx.mon("huge: non-empty one-sided answers judged, bound %s" % band)
+                    if side == "start" and not upper:
+                        ctx.mon("huge: start-only queries beyond every stored feature (nothing returned)")
+                continue
+            # ---- two bounds: region
+            refuse = "region, completely_within" if over and within else None
+            if seqid is None:
+                forms = [("kw-noseqid", lambda: db.region(start=a, end=b, **kw))]
+            else:
+                forms = [("tuple", lambda: db.region((seqid, a, b), **kw)),
+                         ("string", lambda: db.region("%s:%d-%d" % (seqid, a, b), **kw)),
+                         ("kw", lambda: db.region(seqid=seqid, start=a, end=b, **kw)),
+                         ("feature", lambda: db.region(gffutils.Feature(seqid=seqid, start=a, end=b), **kw))]
+            for name, fn in forms:
+                got = ask("region/%s %s" % (name, wo), fn, lower, upper, q, refuse)
+                if isinstance(got, list):
+                    ctx.mon("huge: region answers judged, end %s: %s" % (band, wo))
+                    ctx.mon("huge: region answers judged, end %s: form %s" % (band, name))
+                    if lower:
+                        useful = True
+                        ctx.mon("huge: non-empty region answers judged, end %s: %s" % (band, wo))
+                        if any(by_id[i]["end"] >= 2 ** 62 for i in lower):
+                            ctx.mon("huge: region answers holding a feature that ends at or beyond 2**62, end %s" % band)
+                    if a >= 2 ** 62:
+                        ctx.mon("huge: region answers judged, both bounds >= 2**62")
+            if seqid is None:
+                continue
+            # ---- two bounds: limit= of the four apis
+            kid = next((f["id"] for f in feats if q["gene"] in f["parents"]), None) if q["gene"] else None
+            for api in ("all_features", "features_of_type", "children", "parents"):
+                if api == "features_of_type" and ft is None:
+                    continue
+                ident = q["gene"] if api == "children" else kid if api == "parents" else None
+                if api in ("children", "parents") and ident is None:
+                    continue
+                uni = M.universe(feats, api, ident)
+                st = strand if api in ("all_features", "features_of_type") else None
+                lo, upp = M.expected(uni, seqid, a, b, within, st, ft)
+                ftarg = list(ft) if ft is not None else None
+                for lname, lim in (("tuple", (seqid, a, b)), ("string", "%s:%d-%d" % (seqid, a, b))):
+                    if api == "all_features":
+                        fn = lambda lim=lim: db.all_features(limit=lim, strand=st, featuretype=ftarg, completely_within=within)
+                    elif api == "features_of_type":
+                        fn = lambda lim=lim: db.features_of_type(ftarg, limit=lim, strand=st, completely_within=within)
+                    elif api == "children":
+                        fn = lambda lim=lim: db.children(ident, limit=lim, featuretype=ftarg, completely_within=within)
+                    else:
+                        fn = lambda lim=lim: db.parents(ident, limit=lim, featuretype=ftarg, completely_within=within)
+                    got = ask("%s(limit=%s) %s" % (api, lname, wo), fn, lo, upp, dict(q, api=api, id=ident),
+                              "limit= tuple" if over and lname == "tuple" else None)
+                    if isinstance(got, list):
+                        ctx.mon("huge: limit= answers judged, end %s: %s form" % (band, lname))
+                        ctx.mon("huge: limit= answers judged, end %s: %s" % (band, api))
+                        if lo:
+                            useful = True
+                            ctx.mon("huge: non-empty limit= answers judged, end %s: %s" % (band, wo))
+    finally:
+        try:
+            db.conn.close()
+        except Exception:
+            pass
+        for v in contracts.drain():
+            report(ctx, case, "contract " + v.get("contract", "?"), v)
+    return useful
+
+
+# ---------------------------------------------------------------------------------------------------------
 def execute_big(ctx, case):
     """kind "big": {"seed"}.  G.make_big(seed) -> a database with more than 10 000 features inside one interval (sites of
     several records with identical coordinates); G.big_queries(seed) -> queries with LARGE answers in every form, and
@@ -1548,6 +1735,12 @@ def run(ctx):
         ctx.case(("oddseq", case["seed"], repr(case["seqids"]), repr(case["queries"])), bool(useful),
                  cls="oddseq/seqids holding , - space % and repeated featuretype entries",
                  sample={"seqids": case["seqids"], "seed": case["seed"], "queries": case["queries"][:3]})
+    # query bounds far beyond anything stored (2**62 ... 10**20, 2**100), in every query form
+    for _ in range(ctx.budget(64, 16 * 200)):
+        case = G.gen_huge(rng)
+        useful = execute(ctx, case)
+        ctx.case(("huge", case["seed"], repr(case["queries"])), bool(useful), cls="huge/query bounds of 2**62 and more",
+                 sample={"seed": case["seed"], "queries": case["queries"][:3]})
     if ctx.shard % 4 == 0:
         # one LARGE answer (costs ~10 s, hence one shard of four)
         case = {"kind": "big", "seed": rng.randrange(1 << 30)}
@@ -1634,6 +1827,9 @@ MANIFEST = {
             "then ask every query form: the answers must be the scan of the coordinates now stored in the file. Half of the "
             "databases are imported from files carrying '##sequence-region' (and other) directives for the queried and for other "
             "seqids, with features reaching beyond the declared end and query ends beyond it: the answers are those of the scan. "
+            "'huge' cases ask every query form with a bound of 2**62, 2**63 - 1, 2**63, 2**64, 10**20 and beyond (end of two-sided "
+            "queries, only bound, limit=; ints and the digits of the string forms) on databases whose features reach 2**63 - 1: the "
+            "answer is the scan's under exact integer comparison. "
             "Held = no executed query disagreed.",
     "note": "Trusted: the scan in gvmon/models/C06.py, sqlite3. One-sided queries are judged by a sandwich (strictly beyond <= "
             "result <= at or beyond). Not covered: queries without any bound, empty featuretype collections, hierarchies deeper "
